@@ -7,7 +7,7 @@ V=/verif; wt=/tmp/seedwt/$id; out=/tmp/seedout/$id
 rm -rf $out; mkdir -p /tmp/seedwt $out
 git -C /repo worktree remove --force $wt 2>/dev/null; rm -rf $wt
 git -C /repo worktree add -q --detach $wt HEAD || exit 2
-git -C $wt apply $V/seeded/$id/patch.diff || { echo "$id: patch does not apply"; git -C /repo worktree remove --force $wt; exit 2; }
+git -C $wt apply $V/seeded/$id/patch.diff 2>/dev/null || git -C $wt apply -3 $V/seeded/$id/patch.diff || { echo "$id: patch does not apply"; git -C /repo worktree remove --force $wt; exit 2; }
 tag=$(python3 -c "import hashlib,os;print(hashlib.sha1(os.path.realpath('$wt').encode()).hexdigest()[:10])")
 tdir=$V/.target/alt-$tag
 if [ ! -d $tdir ]; then cp -a --reflink=auto $V/.target/main $tdir; fi
